@@ -25,6 +25,7 @@ import (
 )
 
 const simmapPath = "com.tuntun.rangers/node/src/zzverif/simmap"
+const simschedPath = "com.tuntun.rangers/node/src/zzverif/simsched"
 
 func main() {
 	repo := flag.String("repo", "/repo", "")
@@ -32,6 +33,7 @@ func main() {
 	out := flag.String("out", "", "")
 	overlay := flag.String("overlay", "", "overlay json passed to go list")
 	pkgs := flag.String("pkgs", "", "comma separated package patterns")
+	yieldPkgs := flag.String("yield", "", "comma separated import-path suffixes whose functions get yield points, lock and go rewrites")
 	flag.Parse()
 	bf := []string{"-tags=verif"}
 	if *modfile != "" {
@@ -72,6 +74,13 @@ func main() {
 		os.Exit(2)
 	}
 	nmap, nsync, nfiles, nskip := 0, 0, 0, 0
+	nyield, nlock, ngo := 0, 0, 0
+	yieldSet := map[string]bool{}
+	for _, y := range strings.Split(*yieldPkgs, ",") {
+		if y != "" {
+			yieldSet[y] = true
+		}
+	}
 	for _, p := range loaded {
 		if len(p.Errors) > 0 {
 			for _, e := range p.Errors {
@@ -97,6 +106,9 @@ func main() {
 				continue
 			}
 			changed := false
+			usedSched := false
+			usedMap := false
+			doYield := yieldSet[strings.TrimPrefix(p.PkgPath, "com.tuntun.rangers/node/src/")]
 			rel, _ := filepath.Rel(*repo, fname)
 			astutil.Apply(f, func(c *astutil.Cursor) bool {
 				switch n := c.Node().(type) {
@@ -117,6 +129,7 @@ func main() {
 					rewriteMapRange(n, site)
 					nmap++
 					changed = true
+					usedMap = true
 				case *ast.CallExpr:
 					sel, ok := n.Fun.(*ast.SelectorExpr)
 					if !ok || sel.Sel.Name != "Range" || len(n.Args) != 1 {
@@ -145,13 +158,97 @@ func main() {
 					n.Args = []ast.Expr{recv, &ast.BasicLit{Kind: token.STRING, Value: fmt.Sprintf("%q", site)}, n.Args[0]}
 					nsync++
 					changed = true
+					usedMap = true
 				}
 				return true
 			}, nil)
+			if doYield {
+				astutil.Apply(f, func(c *astutil.Cursor) bool {
+					switch n := c.Node().(type) {
+					case *ast.FuncDecl:
+						if n.Body == nil {
+							return true
+						}
+						name := n.Name.Name
+						if n.Recv != nil && len(n.Recv.List) == 1 {
+							name = recvName(n.Recv.List[0].Type) + "." + name
+						}
+						site := filepath.Base(filepath.Dir(rel)) + "." + name
+						y := &ast.ExprStmt{X: &ast.CallExpr{Fun: &ast.SelectorExpr{X: ast.NewIdent("zzsimsched"), Sel: ast.NewIdent("Yield")},
+							Args: []ast.Expr{&ast.BasicLit{Kind: token.STRING, Value: fmt.Sprintf("%q", site)}}}}
+						n.Body.List = append([]ast.Stmt{y}, n.Body.List...)
+						nyield++
+						changed, usedSched = true, true
+					case *ast.ExprStmt:
+						call, ok := n.X.(*ast.CallExpr)
+						if !ok || len(call.Args) != 0 {
+							return true
+						}
+						sel, ok := call.Fun.(*ast.SelectorExpr)
+						if !ok || (sel.Sel.Name != "Lock" && sel.Sel.Name != "RLock") {
+							return true
+						}
+						tv, ok := p.TypesInfo.Types[sel.X]
+						if !ok {
+							return true
+						}
+						t := tv.Type
+						ptr := false
+						if pt, ok := t.(*types.Pointer); ok {
+							t, ptr = pt.Elem(), true
+						}
+						named, ok := t.(*types.Named)
+						if !ok || named.Obj().Pkg() == nil || named.Obj().Pkg().Path() != "sync" || (named.Obj().Name() != "Mutex" && named.Obj().Name() != "RWMutex") {
+							return true
+						}
+						if sel.Sel.Name == "RLock" && named.Obj().Name() != "RWMutex" {
+							return true
+						}
+						var recv ast.Expr = sel.X
+						if !ptr {
+							recv = &ast.UnaryExpr{Op: token.AND, X: sel.X}
+						}
+						site := fmt.Sprintf("%s:%d", rel, p.Fset.Position(n.Pos()).Line)
+						call.Fun = &ast.SelectorExpr{X: ast.NewIdent("zzsimsched"), Sel: ast.NewIdent(sel.Sel.Name)}
+						call.Args = []ast.Expr{recv, &ast.BasicLit{Kind: token.STRING, Value: fmt.Sprintf("%q", site)}}
+						nlock++
+						changed, usedSched = true, true
+					case *ast.GoStmt:
+						// go f(a, b)  ->  zzsimsched.Go(site, func() { f(a, b) }) with the arguments evaluated now
+						site := fmt.Sprintf("%s:%d", rel, p.Fset.Position(n.Pos()).Line)
+						var pre []ast.Stmt
+						call := n.Call
+						for i, a := range call.Args {
+							if _, isLit := a.(*ast.BasicLit); isLit {
+								continue
+							}
+							tmp := ast.NewIdent(fmt.Sprintf("zzarg%d", i))
+							pre = append(pre, &ast.AssignStmt{Lhs: []ast.Expr{tmp}, Tok: token.DEFINE, Rhs: []ast.Expr{a}})
+							call.Args[i] = tmp
+						}
+						if fl, ok := call.Fun.(*ast.FuncLit); ok {
+							_ = fl // go func(){...}(args): the literal is called inside the task
+						}
+						goCall := &ast.ExprStmt{X: &ast.CallExpr{Fun: &ast.SelectorExpr{X: ast.NewIdent("zzsimsched"), Sel: ast.NewIdent("Go")},
+							Args: []ast.Expr{&ast.BasicLit{Kind: token.STRING, Value: fmt.Sprintf("%q", site)},
+								&ast.FuncLit{Type: &ast.FuncType{Params: &ast.FieldList{}}, Body: &ast.BlockStmt{List: []ast.Stmt{&ast.ExprStmt{X: call}}}}}}}
+						c.Replace(&ast.BlockStmt{List: append(pre, goCall)})
+						ngo++
+						changed, usedSched = true, true
+						return false
+					}
+					return true
+				}, nil)
+			}
 			if !changed {
 				continue
 			}
-			astutil.AddNamedImport(p.Fset, f, "zzsimmap", simmapPath)
+			if usedMap {
+				astutil.AddNamedImport(p.Fset, f, "zzsimmap", simmapPath)
+			}
+			if usedSched {
+				astutil.AddNamedImport(p.Fset, f, "zzsimsched", simschedPath)
+			}
 			var buf bytes.Buffer
 			if err := format.Node(&buf, p.Fset, f); err != nil {
 				fmt.Fprintln(os.Stderr, "format:", fname, err)
@@ -166,7 +263,19 @@ func main() {
 			nfiles++
 		}
 	}
-	fmt.Printf("instrumented: %d map ranges, %d sync.Map ranges in %d files (%d skipped)\n", nmap, nsync, nfiles, nskip)
+	fmt.Printf("instrumented: %d map ranges, %d sync.Map ranges, %d function-entry yields, %d lock sites, %d go statements in %d files (%d skipped)\n", nmap, nsync, nyield, nlock, ngo, nfiles, nskip)
+}
+
+func recvName(e ast.Expr) string {
+	switch x := e.(type) {
+	case *ast.StarExpr:
+		return recvName(x.X)
+	case *ast.Ident:
+		return x.Name
+	case *ast.IndexExpr:
+		return recvName(x.X)
+	}
+	return "?"
 }
 
 func simpleExpr(e ast.Expr) bool {
